@@ -27,8 +27,12 @@ TOL = 1e-6
 
 
 def hopts_wire(o):
-    return dict(vr=fr(o.get("violation_relaxation", 0.0)), cr=fr(o.get("constraint_relaxation", 0.0)),
-                thr=fr(o.get("equality_threshold", 1e-8)), fix=bool(o.get("fix_minimized_values", False)))
+    w = dict(vr=fr(o.get("violation_relaxation", 0.0)), cr=fr(o.get("constraint_relaxation", 0.0)),
+             thr=fr(o.get("equality_threshold", 1e-8)), fix=bool(o.get("fix_minimized_values", False)))
+    vt = o.get("violation_tolerance", INF)
+    if math.isfinite(vt):
+        w["vt"] = fr(vt)
+    return w
 
 
 def goals_by_priority(specs):
@@ -62,6 +66,7 @@ def goal_slack(s, opts, c=0):
 def check_no_degradation(c, desc, groups, snaps, final, opts, E, n, fixed):
     """multi-pass: target goals keep their achieved violation, minimisation goals their value"""
     vr = opts.get("violation_relaxation", 0.0)
+    vt = opts.get("violation_tolerance", INF)
     later = [(p, res) for (p, res, *_r) in snaps]
     if final is not None:
         later = later + [("final", final)]
@@ -82,9 +87,19 @@ def check_no_degradation(c, desc, groups, snaps, final, opts, E, n, fixed):
                             f = S.fvalue(s, res_l[m], 0)
                             lo, hi = s.lo_at(0), s.hi_at(0)
                             tol = TOL * max(1.0, abs(hi - lo), s.nom_at(0)) + goal_slack(s, opts)
+                            f_then = S.fvalue(s, res_j[m], 0)
                             for i in range(len(f)):
                                 a, b = s.target_at("min", 0, i), s.target_at("max", 0, i)
                                 c.count()
+                                if eps[i] > vt:
+                                    # violated beyond violation_tolerance: the achieved value is fixed
+                                    c.hit("oracle/violated-step-fixed")
+                                    tolf = TOL * max(1.0, s.nom_at(0)) + goal_slack(s, opts)
+                                    if abs(f[i] - f_then[i]) > tolf:
+                                        c.fail("function value of a violated step moved " + where, desc,
+                                               dict(goal=s.describe(), step=i, eps_then=float(eps[i]),
+                                                    f_then=float(f_then[i]), f_now=float(f[i])))
+                                    continue
                                 if s.has_min and math.isfinite(a):
                                     c.hit("oracle/target-min-step")
                                     if f[i] < a + eps[i] * (lo - a) - tol:
@@ -182,6 +197,8 @@ def gen_case(rng, variant, stream="main"):
         opts["constraint_relaxation"] = rng.choice([0.125, 0.5])
     if variant == "GP" and rng.random() < 0.25:
         opts["violation_relaxation"] = rng.choice([0.015625, 0.0625])
+    if variant == "GP" and stream == "main" and rng.random() < 0.2:
+        opts["violation_tolerance"] = rng.choice([0.0, 0.03125, 0.25])
     if stream == "f25":
         # goals sharing a key get different nominals (known finding candidate F25)
         seen = {}
@@ -205,6 +222,7 @@ def stream_main(c, N, variants=("GP", "GP", "GP", "GPkeep", "SP", "SP2"), stream
     K = S.problem_classes()
     rng = c.rng
     cases = []
+    objrow_cases = []
     lines02, lines04 = [], []
     for _ in range(N):
         variant = rng.choice(variants)
@@ -257,6 +275,11 @@ def stream_main(c, N, variants=("GP", "GP", "GP", "GPkeep", "SP", "SP2"), stream
                                               slack=s.relax + eff["constraint_relaxation"] * s.nom_at(0))
         if len(pr.snaps) > 1:
             c.hit(stream + "/multi-priority-runs")
+        if variant != "GP" and stream == "main" and len(pr.snaps) > 1:
+            objrow_cases.append(dict(desc=desc, variant=variant, fixed=fixed, cr=float(eff["constraint_relaxation"]),
+                                     objs=[float(sn[3]) for sn in pr.snaps],
+                                     bounds=[(np.array(sn[2]["lbg"], dtype=float).ravel().tolist(),
+                                              np.array(sn[2]["ubg"], dtype=float).ravel().tolist()) for sn in pr.snaps]))
         # ---- correspondence: store prediction vs the rows of every solved priority
         if rows_mode and stream == "main" and pr.snaps:
             base = K["Base"](**inst)
@@ -272,7 +295,8 @@ def stream_main(c, N, variants=("GP", "GP", "GP", "GPkeep", "SP", "SP2"), stream
                         gl = gpoint if kind == "point" else gpath
                         res = pr.snaps[k][1]
                         steps.append(dict(goals=[s.wire() for s in gl],
-                                          ach=[[fr(x) for x in achieved(s, res[m], k, j, kind)] for j, s in enumerate(gl)]))
+                                          ach=[[fr(x) for x in achieved(s, res[m], k, j, kind)] for j, s in enumerate(gl)],
+                                          fv=[[fr(float(x)) for x in S.fvalue(s, res[m], 0)] for s in gl]))
                     idx02.append((m, kind, len(lines02)))
                     lines02.append(dict(op="chain", n=1 if kind == "point" else n, opts=ho, steps=steps))
             idx04 = []
@@ -293,6 +317,7 @@ def stream_main(c, N, variants=("GP", "GP", "GP", "GPkeep", "SP", "SP2"), stream
                                                 eps=[[fr(x) for x in r_] for r_ in eps]))
             cases.append(dict(desc=desc, groups=groups, extras=pr.extras, nsnap=len(pr.snaps), nb=nb, E=E, n=n,
                               idx02=idx02, idx04=idx04, specs=specs))
+    check_objective_rows(c, objrow_cases)
     if not cases:
         return
     outs02 = c.model(lines02)
@@ -333,6 +358,31 @@ def stream_main(c, N, variants=("GP", "GP", "GP", "GPkeep", "SP", "SP2"), stream
                 c.disagree("rows of priority index %d (base + soft + retained store)" % k, desc,
                            {"missing": missing[:6], "n_model": len(model_rows), "n_base": nb},
                            {"n_real": len(real), "unmatched_real": [e for e in extra if not (e[1] == 0.0 and e[2] == 0.0)][:8]})
+
+
+def check_objective_rows(c, ocases):
+    """keep_soft / single pass: the problem of priority index k carries, for every earlier priority
+    j, one row bounded by the model's `objRow` of the objective value reached at j"""
+    lines, idx = [], []
+    for oc in ocases:
+        for j, v in enumerate(oc["objs"][:-1]):
+            idx.append((oc, j))
+            lines.append(dict(op="objrow", fix=oc["fixed"], cr=fr(oc["cr"]), v=fr(v)))
+    if not lines:
+        return
+    outs = c.model(lines)
+    if outs is None:
+        return
+    for (oc, j), (lo, hi) in zip(idx, outs):
+        for k in range(j + 1, len(oc["objs"])):
+            lbg, ubg = oc["bounds"][k]
+            c.count(("objrow", oc["variant"], oc["fixed"]))
+            c.hit("rows/objective-row")
+            ok = any(same(lo, a, exact=False, rtol=1e-9, atol=1e-12) and same(hi, b, exact=False, rtol=1e-9, atol=1e-12)
+                     for a, b in zip(lbg, ubg))
+            if not ok:
+                c.disagree("retained objective row of priority index %d missing at priority index %d" % (j, k),
+                           oc["desc"], [lo, hi], {"objective": oc["objs"][j]})
 
 
 class _Counting:
@@ -404,6 +454,17 @@ def probe_f27(c):
                   "the earlier bound, the critical goal is silently not met (optimize() returns True)")
 
 
+def replay(c, rp):
+    """re-run the deterministic parts (proofs, corpus, kernel enumeration, probes) and show the
+    recorded failing inputs"""
+    c.prove()
+    for f in rp.get("failures", []) + rp.get("correspondence_disagreements", []):
+        print("recorded:", f["what"])
+    run_corpus(c)
+    C4.stream_update_bounds(c)
+    probe_f27(c)
+
+
 def run(c):
     c.rule = (
         "synthetic linear model (x'=-p x+u+c, y=x+q; 2-5 steps, 1-2 members, nominals) with random goal sets over "
@@ -422,7 +483,8 @@ def run(c):
         "different nominals = finding candidate F25 are counted separately, not judged)",
         "no target_min == target_max steps in the main stream (numerics candidate F24: counted separately)",
         "critical goals intersect the interval retained from earlier priorities on their key (known finding F27 otherwise)",
-        "violation_tolerance is left at its default (inf); Timeseries targets are given on the problem's time grid",
+        "Timeseries targets are given on the problem's time grid; violation_tolerance >= 0 where set (20% of the "
+        "multi-pass runs; repaired as F47)",
         "scale_by_problem_size is off in the keep_soft / single-pass objective oracle",
     ]
     c.prove()
@@ -433,6 +495,11 @@ def run(c):
     stream_main(c, c.n(15, 250), variants=("GP",), stream="f25")
     probe_f27(c)
     c.exhaustive = False
+    c.notes.append("partial: C02_no_degradation assumes equality folding does not trigger (NoFold; folded single "
+                   "goal per key covered by updateBounds_other_within_hull), one nominal per function key, one "
+                   "store (path or point) and one ensemble member at a time; the keep_soft / single-pass theorems "
+                   "abstract a solution to the values of the priorities' objectives; solver feasibility is the "
+                   "oracle contract (hypothesis), the final result is the last solution by C10. ")
     c.notes.append("update_bounds enumerated over all weak orderings of its four arguments; the run streams are "
                    "samples; streams f24/f25 only count outcomes of known-finding candidates; the unbounded "
                    "claims are the theorems")
